@@ -8,7 +8,7 @@ from gev import core, grammars, sources, stream, workload
 
 PROPERTY = "C07"
 LEVEL = "exploration"
-TECHNIQUE = "runtime monitor: repeated mapping of every genotype with interleaved draws on the shared source (structural comparison of the programs) plus a tripwire RandomSource that counts every primitive call on the search's shared random stream inside mapping windows (dSGE extension draws told apart by a flag set around Genotype.get)"
+TECHNIQUE = "runtime monitor: repeated mapping of every genotype with interleaved draws on the shared source (structural comparison of the programs) plus a tripwire RandomSource that counts every primitive call on the search's shared random stream inside mapping windows (dSGE extension draws told apart by a flag set around Genotype.get); between re-mappings the decider object is used elsewhere and 'the next experiment' is prepared over the same classes"
 RULE = (
     "cases = (generated grammar with/without refined fields, genotype representation, decider, seed, op sequence); each genotype reached by "
     "create/mutate/crossover is mapped 3 times with k random draws on the shared source in between; "
